@@ -50,7 +50,9 @@ def compile_trs_unpacker_regex(
         rf"(?P<sec>{sec_rgx}"
         rf"|{err_sec}|{undef_sec})?"
     )
-    rgx = re.compile(pattern, re.VERBOSE)
+    # The error placeholders contain upper-case letters, but `trs_to_dict()`
+    # lower-cases the string before matching.
+    rgx = re.compile(pattern, re.VERBOSE | re.IGNORECASE)
     return rgx
 
 
